@@ -68,10 +68,13 @@ pub fn directions(geometry: &str) -> Vec<[f64; 3]> {
         "square" => vec![[1., 0., 0.], [0., 1., 0.], [-1., 0., 0.], [0., -1., 0.]],
         "tbp" => vec![[0., 0., 1.], [0., 0., -1.], [1., 0., 0.], [-0.5, s3 / 2., 0.], [-0.5, -s3 / 2., 0.]],
         "octahedral" => vec![[1., 0., 0.], [-1., 0., 0.], [0., 1., 0.], [0., -1., 0.], [0., 0., 1.], [0., 0., -1.]],
+        // seven and eight neighbours (the few elements whose maximal valence lets perception keep seven bonds reach "Unknown")
+        "pbp" => { let mut v = vec![[0., 0., 1.], [0., 0., -1.]]; for k in 0..5 { let a = 2.0 * std::f64::consts::PI * k as f64 / 5.0; v.push([a.cos(), a.sin(), 0.]); } v }
+        "cube" => { let q = 1.0 / 3f64.sqrt(); let mut v = vec![]; for sx in [-1., 1.] { for sy in [-1., 1.] { for sz in [-1., 1.] { v.push([sx * q, sy * q, sz * q]); } } } v }
         _ => panic!("geometry"),
     }
 }
-pub const GEOMETRIES: [&str; 10] = ["single", "linear", "bent", "trigonal", "pyramidal", "tetrahedral", "square", "tbp", "octahedral", "orthopyramid"];
+pub const GEOMETRIES: [&str; 12] = ["single", "linear", "bent", "trigonal", "pyramidal", "tetrahedral", "square", "tbp", "octahedral", "orthopyramid", "pbp", "cube"];
 
 /// A centre with ligands at bond length scale × (r_c + r_l)
 pub fn centre(zc: usize, zl: usize, geometry: &str, scale: f64) -> Mol {
